@@ -67,6 +67,7 @@ def post_doWF(ctx, args, kwargs, result):
     g = np.asarray(vals["vtChannels"], dtype=float)
     Pt, N0, Es = float(vals["dPt"]), float(vals["noiseVar"]), float(vals["Es"])
     p, mu = result
+    ctx.hold("matches-reference", "doWF-allocation", p)
     p = np.asarray(p, dtype=float)
     mu = float(mu)
     n = g.size
